@@ -19,6 +19,7 @@ def plan(tier, seed):
     shards += [{"kind": "boundaries", "part": i, "parts": 8, "seed": seed} for i in range(8)]
     k = 60 if tier == "quick" else 1500
     shards += [{"kind": "random", "seed": seed, "shard": i, "n": 60} for i in range(k)]
+    shards += [{"kind": "embedded", "seed": seed, "shard": i, "n": 40} for i in range(16 if tier == "quick" else 300)]
     shards += [{"kind": "mcp", "part": i, "parts": 4 if tier == "quick" else 1, "of": 4} for i in range(4)]
     return shards
 
@@ -108,6 +109,14 @@ def check_slices(txs, obs_all, obs_years, cnt, viols, case_extra=None):
                 viols.append({"clause": "disposal-in-wrong-year", "signature": "disposal-in-wrong-year",
                               "detail": f"{dd['ticker']} {dd['date']} listed in {y['period']}",
                               "case": {"op": "calc", "txs": txs}})
+    listed = Counter((dd["date"], dd["ticker"]) for y in A["years"] for dd in y["disposals"])
+    sold = {(pdate(t["date"]), t["ticker"].upper()) for t in txs if t["kind"] == "SELL"}
+    for k in sold:
+        cnt["sale_days_looked_up"] += 1
+        if listed.get(k, 0) != 1:
+            viols.append({"clause": "disposal-not-in-exactly-one-year", "signature": "disposal-not-in-exactly-one-year",
+                          "detail": f"{k[1]} sold on {k[0]}: listed {listed.get(k, 0)} times in the all-years report "
+                                    f"(years {ys})", "case": {"op": "calc", "txs": txs}})
     amap = {y["start_year"]: y for y in A["years"]}
     for Y, o in obs_years.items():
         cnt["year_filters"] += 1
@@ -206,6 +215,83 @@ def run_random(desc):
     return {"evaluations": n_eval, "nontrivial_hashes": hashes, "counters": cnt, "violations": viols[:20], "samples": []}
 
 
+def judge_embedded(txs, filters, cnt, viols, hashes):
+    p = probe()
+    obs = p.run([lc.calc_case(txs), lc.calc_case(txs, exemptions="embedded")] +
+                [lc.calc_case(txs, year=f, exemptions="embedded") for f in filters])
+    full, emb, ys_obs = obs[0], obs[1], dict(zip(filters, obs[2:]))
+    if "ok" not in full:
+        cnt["embedded:ledger_rejected_even_fully_configured"] += 1
+        return 2 + len(filters)
+    hashes.add(sha(txs)[:16])
+    A = lc.parse_report(full["ok"]["report"])
+    sold = {(pdate(t["date"]), t["ticker"].upper()) for t in txs if t["kind"] == "SELL"}
+    if "ok" in emb:
+        cnt["embedded:all_years_report_produced"] += 1
+        E = lc.parse_report(emb["ok"]["report"])
+        listed = Counter((dd["date"], dd["ticker"]) for y in E["years"] for dd in y["disposals"])
+        for k in sold:
+            if listed.get(k, 0) != 1:
+                viols.append({"clause": "disposal-not-in-exactly-one-year", "signature": "disposal-not-in-exactly-one-year",
+                              "detail": f"embedded exemption table: {k[1]} sold on {k[0]} is listed {listed.get(k, 0)} "
+                                        f"times (years {[y['start_year'] for y in E['years']]})",
+                              "case": {"op": "calc", "txs": txs, "exemptions": "embedded"}})
+        diffs = lc.compare_reports(E, A, exact=True, year_totals=False, label=("embedded", "all-configured"))
+        if diffs:
+            viols.append({"clause": "embedded-report-differs", "signature": "embedded-report-differs",
+                          "detail": "; ".join(diffs[:3]), "case": {"op": "calc", "txs": txs, "exemptions": "embedded"}})
+    else:
+        cnt["embedded:all_years_refused(unconfigured year; C04)"] += 1
+    amap = {y["start_year"]: y for y in A["years"]}
+    for Y, o in ys_obs.items():
+        if "ok" not in o:
+            cnt["embedded:year_filter_refused"] += 1
+            continue
+        cnt["embedded:year_filters_answered"] += 1
+        S = lc.parse_report(o["ok"]["report"])
+        if [y["start_year"] for y in S["years"]] != [Y]:
+            viols.append({"clause": "year-filter-wrong-years", "signature": "year-filter-wrong-years",
+                          "detail": f"--year {Y} lists {[y['start_year'] for y in S['years']]}",
+                          "case": {"op": "calc", "txs": txs, "year": Y, "exemptions": "embedded"}})
+            continue
+        ref = [amap[Y]] if Y in amap else []
+        got = S["years"] if Y in amap else []
+        diffs = lc.compare_reports({"years": got, "holdings": S["holdings"]}, {"years": ref, "holdings": A["holdings"]},
+                                   exact=True, year_totals=False, label=(f"year={Y} (embedded table)", "all-years"))
+        if Y not in amap and S["years"][0]["disposals"]:
+            diffs.append(f"--year {Y} lists disposals but the all-years report has no such year")
+        if diffs:
+            viols.append({"clause": "year-slice-differs", "signature": "year-slice-differs",
+                          "detail": "; ".join(diffs[:4]),
+                          "case": {"op": "calc", "txs": txs, "year": Y, "exemptions": "embedded"}})
+
+    return 2 + len(filters)
+
+
+def run_embedded(desc):
+    """Years outside the embedded exemption table. Whether such a ledger is refused is C04's business (an unconfigured
+    year is an error); what C07 demands is that *if* a report is produced, every sale is in exactly one year, and that
+    a year-restricted report produced under the embedded table shows that year exactly as the all-years report
+    computed with every year configured does (exemption-dependent figures aside)."""
+    rng = rng_for(PROP, desc["seed"], "embedded", desc["shard"])
+    cnt = Counter()
+    viols = []
+    hashes = set()
+    p = probe()
+    n_eval = 0
+    for _ in range(desc["n"]):
+        lo = rng.choice([2008, 2010, 2012, 2013, 2021, 2023, 2024])
+        opts = Opts(capital=rng.random() < 0.2, splits=rng.random() < 0.3, n_sec=(1, 2), steps=(4, 10), long_gaps_p=0.5,
+                    start=(dt.date(lo, 1, 1), dt.date(lo + 3, 1, 1)), last_date=dt.date(2032, 4, 5))
+        txs, _ = gen_ledger(rng, opts)
+        years = sorted({tax_year_of(pdate(t["date"])) for t in txs})
+        filters = list(range(years[0] - 1, years[-1] + 2))
+        if len(filters) > 6:
+            filters = sorted(rng.sample(filters, 6))
+        n_eval += judge_embedded(txs, filters, cnt, viols, hashes)
+    return {"evaluations": n_eval, "nontrivial_hashes": hashes, "counters": cnt, "violations": viols[:20], "samples": []}
+
+
 def run_mcp(desc):
     """explain_matching derives the tax year of a disposal by its own month/day test: every boundary-day disposal
     (5 and 6 April) of the years taken by this shard must be found and explained in the right year; the server runs
@@ -255,7 +341,8 @@ def run_mcp(desc):
 
 
 def run_shard(desc):
-    return {"dates": run_dates, "boundaries": run_boundaries, "random": run_random, "mcp": run_mcp}[desc["kind"]](desc)
+    return {"dates": run_dates, "boundaries": run_boundaries, "random": run_random, "mcp": run_mcp,
+            "embedded": run_embedded}[desc["kind"]](desc)
 
 
 def replay(case):
@@ -268,6 +355,9 @@ def replay(case):
     viols = []
     cnt = Counter()
     filters = [case["year"]] if case.get("year") is not None else []
+    if case.get("exemptions") == "embedded":
+        judge_embedded(txs, filters, cnt, viols, set())
+        return viols, {}
     obs = probe().run([lc.calc_case(txs)] + [lc.calc_case(txs, year=f) for f in filters])
     check_slices(txs, obs[0], dict(zip(filters, obs[1:])), cnt, viols)
     return viols, obs[0]
@@ -282,8 +372,10 @@ def finalize(total, tier, seed):
     ]
 
 
-THRESHOLDS = {"dates_in_range": 73414, "boundary_years": 201, "year_filters": 1500, "filters_on_years_without_disposals": 100,
+THRESHOLDS = {"embedded:year_filters_answered": 500, "embedded:all_years_refused(unconfigured year; C04)": 100, "sale_days_looked_up": 10000, "dates_in_range": 73414, "boundary_years": 201, "year_filters": 1500, "filters_on_years_without_disposals": 100,
               "mcp_boundary_disposals_explained": 200}
 RULE = ("exhaustive date enumeration + all 201 year boundaries + seeded multi-year ledgers (years 1900-2100) x every "
-        "year filter in range; slice equality is exact (Decimal ==); distinct = dates enumerated + boundary years + "
+        "year filter in range, plus ledgers reaching outside the embedded exemption table run under that table (if a report "
+        "is produced every sale must be in exactly one year; year-restricted reports are compared with the fully "
+        "configured all-years report); slice equality is exact (Decimal ==); distinct = dates enumerated + boundary years + "
         "distinct random ledgers")
